@@ -76,4 +76,31 @@ theorem c17_after_auth (P : Prims) (E : Env) (T : KeyTables) (Z : ZipConsts) (re
   · rw [hz] at hnone; cases hnone
   · exact ⟨enc, cek, msg, hdec, hd⟩
 
+/-- **Which framing is read**: the zlib wrapper is assumed exactly when the stream begins with the two octets of the
+default zlib header, `78 9C`; every other stream — whatever its first octets look like (a valid FCHECK, compression
+method 8, another zlib level's header) — is read as a raw DEFLATE stream. -/
+theorem c17_framing_iff (s : Bytes) :
+    List.isPrefixOf ([120, 156] : Bytes) s = true ↔ ∃ rest, s = 120 :: 156 :: rest := by
+  constructor
+  · intro h
+    cases s with
+    | nil => simp [List.isPrefixOf] at h
+    | cons a t =>
+      cases t with
+      | nil => simp [List.isPrefixOf] at h
+      | cons b rest =>
+        simp [List.isPrefixOf] at h
+        exact ⟨rest, by rw [h.1, h.2]⟩
+  · rintro ⟨rest, rfl⟩
+    simp [List.isPrefixOf]
+
+/-- … and that is the flag the one bounded inflate call gets (for the regenerated constants). -/
+theorem c17_framing (P : Prims) (Z : ZipConsts) (hZ : Z.gzipHead = [120, 156]) (s v : Bytes) (h : zipDecompress P Z s = .ok v) :
+    ∃ more, P.inflate (List.isPrefixOf ([120, 156] : Bytes) s) s Z.maxSize = .ok (v, more) := by
+  unfold zipDecompress at h
+  simp only [bind_eq_ok, tryCatchCls_err_ok, ensure_eq_ok, pure_eq_ok] at h
+  obtain ⟨⟨out, more⟩, hinf, _, _, hv⟩ := h
+  subst hv
+  exact ⟨more, by rw [← hZ]; exact hinf⟩
+
 end Jose.C17
